@@ -270,6 +270,17 @@ class Generator:
                 if n == 0:
                     raise GenError(f'lost-anchor: RCALL site {rw[2]}.{meth} not found in {u.fnpath}')
                 applied.append(f'RCALL {rw[2]}.{meth} -> {func} x{n}')
+            elif kind == 'RPCALL':
+                # path call `a::b(args)` -> `helper(args)` (callee path replaced, arguments verbatim)
+                want, func = normtok(rw[1]), rw[2]
+                n = 0
+                for c in fn['pcalls']:
+                    if inside(c['span'], span) and c['func'] == want:
+                        add_edit(c['func_span'][0], c['func_span'][1], func, 'RPCALL')
+                        n += 1
+                if n == 0:
+                    raise GenError(f'lost-anchor: RPCALL site {rw[1]} not found in {u.fnpath}')
+                applied.append(f'RPCALL {rw[1]} -> {func} x{n}')
             elif kind == 'RC':
                 # closure contract: `|p| body` -> `|p| -> (cr: T) ensures E { body }` (body verbatim)
                 k, rty, ens = int(rw[1]), rw[2], rw[3]
